@@ -4,15 +4,19 @@ untouched while other work goes on. usage: run_seeds.py <verif-copy> <repo-copy>
 Writes <verif-copy>/work/seed_results.json : {seed id: [{check, rc, line, summary}]}."""
 import json, os, subprocess, sys, glob, re
 vcopy, rcopy = sys.argv[1], sys.argv[2]
-only = sys.argv[3:]
+only = [a for a in sys.argv[3:] if not a.startswith("--")]
+shard = next((a for a in sys.argv[3:] if a.startswith("--shard=")), "--shard=0/1")[8:]
+SH_I, SH_N = map(int, shard.split("/"))
+own_only = "--own" in sys.argv
 RELATED = {  # other properties whose checks plausibly see a seed of this property
     "C01": ["C02", "C09"], "C02": ["C01", "C06"], "C05": ["C02", "C03", "C04"], "C06": ["C02"], "C08": ["C02"], "C09": ["C11"],
     "C10": ["C12"], "C11": ["C09"], "C03": ["C04", "C13"], "C04": ["C03"], "C07": ["C04"], "C18": [], "C17": ["C02"],
 }
 res = {}
-out_path = os.path.join(vcopy, "work", "seed_results.json")
+out_path = os.path.join(vcopy, "work", "seed_results_%d.json" % SH_I)
 os.makedirs(os.path.dirname(out_path), exist_ok=True)
-for d in sorted(glob.glob("/verif/seeded/C??-*")):
+for _k, d in enumerate(sorted(glob.glob("/verif/seeded/C??-*"))):
+    if _k % SH_N != SH_I: continue
     sid = os.path.basename(d); prop = sid[:3]
     if only and prop not in only: continue
     meta = json.load(open(os.path.join(d, "meta.json")))
@@ -21,7 +25,7 @@ for d in sorted(glob.glob("/verif/seeded/C??-*")):
     if subprocess.run(["git", "-C", rcopy, "apply", os.path.join(d, "patch.diff")]).returncode != 0:
         res[sid] = [dict(check=prop, rc=-1, line="patch does not apply")]; continue
     runs = []
-    for chk in [prop] + RELATED.get(prop, []):
+    for chk in [prop] + ([] if own_only else RELATED.get(prop, [])):
         p = subprocess.run(["./check", chk, "quick"], cwd=vcopy, env=dict(os.environ, VERIF_REPO=rcopy, VERIF_SEED="1"),
                            stdout=subprocess.PIPE, stderr=subprocess.STDOUT, text=True)
         lines = [l for l in p.stdout.splitlines() if l.startswith("VIOLATION") or " quick: " in l]
